@@ -6,7 +6,7 @@
 From SL Require Import Lib.Base Lib.Oracle Lib.ZqGroup Gen.Params Model.Gf128 Model.SoftSpoken Model.Endemic
   Model.RvoleCore Model.Rvole.
 From SL Require Import Proofs.Gf128Spec Proofs.SoftSpokenBytes Proofs.SoftSpokenC03 Proofs.Endemic Proofs.EndemicThm.
-From SL Require Import Proofs.RvoleLemmas Proofs.RvoleCorrect Proofs.RvoleTamper Proofs.RvolePipeline Proofs.RvoleClosed.
+From SL Require Import Proofs.RvoleLemmas Proofs.RvoleCorrect Proofs.RvoleTamper Proofs.RvolePipeline Proofs.RvoleOtReply Proofs.RvoleClosed.
 Local Open Scope Z_scope.
 
 (** Abstract OT layer: for every oracle, session id, input vector a, eta tape and every OT-layer output with v_x = v_beta, the honest message is accepted and c_i + d_i = a_i * b (mod q) for every batch position, b = <g, beta>. *)
